@@ -141,6 +141,9 @@ static Outcome runOnce(const KV& c)
         L.initializeDirectSolver(*H.geometry, *H.coefficients, p.dirbc, 1, method);
         L.initializeResidual(*H.geometry, *H.coefficients, p.dirbc, 1, method);
         Vector<double> f = makeVector(g, fkind, fseed + 99);
+        if (fscale != 0)
+            for (int i = 0; i < n; i++)
+                f[i] = std::ldexp(f[i], fscale);
         Vector<double> x = f, r(n);
         L.directSolveInPlace(x);
         L.computeResidual(r, f, x);
